@@ -309,8 +309,15 @@ class IntervalSim:
         kw = {}
         if cfg['n_inner'] is not None:
             kw['n_inner_samples'] = cfg['n_inner']
-        self.ex = IntervalSage(self.model, self.names, self.loss, interval_length=cfg['interval'],
-                               storage_length=cfg['storage_length'], **kw)
+        if cfg.get('own_storage'):
+            # the caller supplies the (still empty) IntervalStorage: ITS size is the window, whatever storage_length says
+            from ixai.storage import IntervalStorage
+            kw['storage'] = IntervalStorage(size=cfg['storage_length'], store_targets=True)
+            self.ex = IntervalSage(self.model, self.names, self.loss, interval_length=cfg['interval'],
+                                   storage_length=cfg['storage_length'] + cfg['own_storage'], **kw)
+        else:
+            self.ex = IntervalSage(self.model, self.names, self.loss, interval_length=cfg['interval'],
+                                   storage_length=cfg['storage_length'], **kw)
         self.window = []
         self.calls = 0
         self.stored = 0
@@ -411,7 +418,7 @@ def interval_cfg(draw):
     return {'names': draw(cfgs.names_st(d)), 'spec': draw(cfgs.model_st(d)), 'loss': draw(cfgs.loss_st()),
             'mode': draw(st.sampled_from(['exact', 'float'])), 'seeds': [draw(gen.seed32), draw(gen.seed32)],
             'n_inner': draw(st.sampled_from([None, 1, 2])), 'interval': draw(st.integers(1, 5)),
-            'storage_length': draw(st.integers(1, 5))}
+            'storage_length': draw(st.integers(1, 5)), 'own_storage': draw(st.sampled_from([0, 0, 1, 3]))}
 
 
 def make_machine():
